@@ -541,7 +541,7 @@ def hp_drift(scripts, traces):
     compared = bad = 0
     first = None
     for sc in scripts:
-        if 'dict-model' not in sc.get('tags', []) or sc['cfg'].get('kind') not in ('HP', 'BHP', 'BUP', 'DHP'):
+        if 'dict-model' not in sc.get('tags', []) or sc['cfg'].get('kind') not in ('HP', 'BHP', 'BUP', 'DHP', 'BDHP'):
             continue
         tr = traces.get(sc['tid'])
         if not tr:
@@ -560,7 +560,7 @@ def hp_drift(scripts, traces):
                 first = first or dict(tid=sc['tid'], op=o['op'], predicted=ex,
                                       recorded={k: e.get(k) for k in list(ex) if k in e})
                 break
-    return dict(compared=compared, disagreements=bad, first=first, model='HP.tla (HP, BHP) / BUP.tla / DHP.tla')
+    return dict(compared=compared, disagreements=bad, first=first, model='HP.tla (HP, BHP) / BUP.tla / DHP.tla (DHP, BDHP)')
 
 
 def run_parser(ctx, fam):
@@ -592,12 +592,13 @@ def run_parser(ctx, fam):
             scripts.append(parser_ops_to_script('parser-walk-%d-%d' % (ctx.seed, i), ops, kind, ['tlc-walk']))
     if mix.get('hp'):
         # implementation-shaped dictionary models with the real slot function:
-        # HP.tla (also run on BHP, which shares the dictionary) and BUP.tla.
+        # HP.tla (HP, BHP), BUP.tla, DHP.tla (DHP, BDHP).
         # The quick tier runs one of the two per property, the thorough tier both.
         models = [('HP.tla', 'HP_q.cfg', 'HP_T.cfg', 'HP'), ('BUP.tla', 'BUP_q.cfg', 'BUP_T.cfg', 'BUP'),
-                  ('DHP.tla', 'DHP_q.cfg', 'DHP_T.cfg', 'DHP'), ('HP.tla', 'BHP_q.cfg', 'BHP_T.cfg', 'BHP')]
+                  ('DHP.tla', 'DHP_q.cfg', 'DHP_T.cfg', 'DHP'), ('HP.tla', 'BHP_q.cfg', 'BHP_T.cfg', 'BHP'),
+                  ('DHP.tla', 'BDHP_q.cfg', 'BDHP_T.cfg', 'BDHP')]
         if not t:
-            models = [models[{'C01': 0, 'C02': 1, 'C03': 2, 'C14': 3, 'C15': 1, 'C19': 3}.get(ctx.prop, 0)]]
+            models = [models[{'C01': 0, 'C02': 1, 'C03': 2, 'C14': 3, 'C15': 1, 'C19': 4}.get(ctx.prop, 0)]]
         for mod, cq, ct, mk in models:
             log('[%s] design model check + transition cover of %s (dictionary with the real slot function)' % (ctx.prop, mod))
             hist = vlib.tlc_cover(ctx, mod, ct if t else cq, limit=(6000 if t else mix['hp']), seed=ctx.seed, timeout=3000)
@@ -606,8 +607,6 @@ def run_parser(ctx, fam):
                 begin.pop('op')
                 begin.pop('expect', None)
                 kind = mk
-                if mk == 'DHP' and i % 3 == 2:
-                    kind = 'BDHP'
                 cfgd = dict(begin, kind=kind)
                 cfgd.pop('BucketSize', None) if kind != 'BUP' else None
                 scripts.append(dict(tid='%s-cover-%d' % (mk.lower(), i), comp='parser', cfg=cfgd, ops=ops[1:],
